@@ -204,6 +204,88 @@ def _plain_copy(s):
     return s["place"]["local"], o["place"]["local"]
 
 
+def _copy_clash(fn, cfg, occ, ydefs, X, sites, Y):
+    """would giving Y's definitions to X (and deleting the copies `X = Y` at `sites`) change what some read of X sees?
+    (1) backwards from every copy along the paths on which a definition of Y reaches it: X is not mentioned there;
+    (2) forwards from every definition of Y: X is not read before it is written again (the copies count as writes)."""
+    per = {}
+    for b2, pos2, h2, role2 in occ:
+        if h2["local"] == X:
+            per.setdefault(b2, {}).setdefault(pos2, set()).add(role2)
+    ydef_at = {}
+    for d in ydefs:
+        ydef_at.setdefault(d[1], set()).add(d[2] if d[0] == "stmt" else TERM)
+    siteset = set(sites)
+    nst = {bi: len(fn.blocks[bi]["stmts"]) for bi in cfg.reach}
+
+    def positions_down(bi, start):
+        """statement positions of block bi below `start` (exclusive), highest first; TERM sorts above every statement"""
+        out = []
+        if start == TERM + 1:
+            out.append(TERM)
+            start = nst[bi]
+        elif start == TERM:
+            start = nst[bi]
+        out.extend(range(min(start, nst[bi]) - 1, -1, -1))
+        return out
+
+    # (1)
+    for (bi, si) in sites:
+        seen = set()
+        st = [(bi, si)]
+        first = True
+        while st:
+            b2, start = st.pop()
+            stopped = False
+            for pos in positions_down(b2, start):
+                if (b2, pos) in siteset:
+                    stopped = True      # an earlier execution of a copy: X holds Y's value from there on already
+                    break
+                if pos in ydef_at.get(b2, ()):
+                    stopped = True      # the definition that reaches the copy (it may read X: it reads before it writes)
+                    roles = per.get(b2, {}).get(pos, set())
+                    if roles - {"use", "idx"}:
+                        return True
+                    break
+                if pos in per.get(b2, {}):
+                    return True
+            if stopped:
+                continue
+            for p in cfg.pred[b2]:
+                if p in cfg.reach and not fn.blocks[p]["cleanup"] and p not in seen:
+                    seen.add(p)
+                    st.append((p, TERM + 1))
+            if b2 == 0:
+                return True      # the entry is reached with Y undefined: not the shape this transformation is for
+    # (2)
+    for d in ydefs:
+        b0 = d[1]
+        p0 = d[2] if d[0] == "stmt" else TERM
+        seen = set()
+        st = [(b0, p0)]
+        while st:
+            b2, after = st.pop()
+            killed = False
+            if after != TERM:
+                for pos in list(range(after + 1 if after >= 0 else 0, nst[b2])) + [TERM]:
+                    roles = per.get(b2, {}).get(pos)
+                    if (b2, pos) in siteset:
+                        killed = True
+                        break
+                    if roles:
+                        if roles & {"use", "idx", "partial"}:
+                            return True
+                        killed = True
+                        break
+            if killed:
+                continue
+            for y in cfg.succ[b2]:
+                if y in cfg.reach and y not in seen:
+                    seen.add(y)
+                    st.append((y, -1))
+    return False
+
+
 def coalesce(prog, fn):
     n = 0
     for _round in range(12):
@@ -229,62 +311,115 @@ def coalesce(prog, fn):
                     continue
                 if fn.locals[X]["ty"]["s"] != fn.locals[Y]["ty"]["s"]:
                     continue
+                # Y is read by this copy only - or by several copies, all of them into X (the return value of an inlined
+                # helper with more than one `return`)
+                sites = [(bi, si)]
                 if uses.get(Y, []) != [(bi, si, "use")]:
-                    continue
+                    sites = []
+                    for (b3, p3, r3) in uses.get(Y, []):
+                        pc3 = _plain_copy(fn.blocks[b3]["stmts"][p3]) if r3 == "use" and isinstance(p3, int) and p3 < len(fn.blocks[b3]["stmts"]) else None
+                        if pc3 != (X, Y) or b3 not in cfg.reach or fn.blocks[b3]["cleanup"]:
+                            sites = None
+                            break
+                        sites.append((b3, p3))
+                    if not sites or len(set(sites)) != len(sites):
+                        continue
                 ydefs = fn.defs.get(Y, [])
                 if not ydefs or fn.partial.get(Y):
                     continue
-                # region: blocks on a path from a definition of Y to the copy that does not run through the copy's block
-                # on the way (a path around a loop that does has met the copy already)
-                fwd = set()
-                for d in ydefs:
-                    seen = {d[1]}
-                    st = [d[1]] if d[1] != bi else []
-                    while st:
-                        x = st.pop()
-                        for y in cfg.succ[x]:
-                            if y not in seen:
-                                seen.add(y)
-                                if y != bi:
-                                    st.append(y)
-                    fwd |= seen
-                back = {bi}
-                st = [bi]
-                while st:
-                    x = st.pop()
-                    for p in cfg.pred[x]:
-                        if p not in back and p != bi:
-                            back.add(p)
-                            st.append(p)
-                region = fwd & back
-                first_def = {}
-                for d in ydefs:
-                    p = d[2] if d[0] == "stmt" else TERM
-                    first_def[d[1]] = min(first_def.get(d[1], TERM + 1), p)
-                clash = False
-                for b2, pos2, h2, role2 in occ:
-                    if h2["local"] != X or b2 not in region or (b2 == bi and pos2 == si):
-                        continue
-                    entered = any(p in region and p != bi for p in cfg.pred[b2])   # reached from a definition of Y upstream
-                    if b2 == bi:
-                        if pos2 > si:
-                            continue
-                        if not entered and not (bi in first_def and first_def[bi] < pos2):
-                            continue
-                    elif b2 in first_def and pos2 < first_def[b2] and not entered:
-                        continue
-                    elif b2 in first_def and pos2 == first_def[b2] and role2 == "use" and not entered:
-                        continue   # read by the defining statement itself, before it writes
-                    clash = True
-                    break
-                if clash:
+                if _copy_clash(fn, cfg, occ, ydefs, X, sites, Y):
                     continue
                 # Y's definitions define X; the copy disappears
                 for b2, pos2, h2, role2 in occ:
                     if h2["local"] == Y:
                         h2["local"] = X
-                s["k"] = "nop"
-                s["was"] = "coalesced copy"
+                for b3, p3 in sites:
+                    fn.blocks[b3]["stmts"][p3]["k"] = "nop"
+                    fn.blocks[b3]["stmts"][p3]["was"] = "coalesced copy"
+                n += 1
+                done = True
+                break
+        if not done:
+            break
+        j = fn.j
+        for b in j["body"]["blocks"]:
+            b["stmts"] = [s for s in b["stmts"] if s.get("k") != "nop"]
+        fn = _rebuild(prog, fn, j)
+    return fn, n
+
+
+# ---- 2b. a local that takes over a parameter ----------------------------------------------------
+def _live_after(fn, cfg, occ, L, d):
+    """is local L read on some path after the definition d (before being wholly rewritten)?"""
+    per = {}
+    for b2, pos2, h2, role2 in occ:
+        if h2["local"] == L:
+            per.setdefault(b2, {}).setdefault(pos2, set()).add(role2)
+    nst = {bi: len(fn.blocks[bi]["stmts"]) for bi in cfg.reach}
+    b0 = d[1]
+    p0 = d[2] if d[0] == "stmt" else TERM
+    seen = set()
+    st = [(b0, p0)]
+    while st:
+        b2, after = st.pop()
+        killed = False
+        if after != TERM:
+            for pos in list(range(after + 1 if after >= 0 else 0, nst[b2])) + [TERM]:
+                roles = per.get(b2, {}).get(pos)
+                if roles:
+                    if roles & {"use", "idx", "partial"}:
+                        return True
+                    killed = True
+                    break
+        if killed:
+            continue
+        for y in cfg.succ[b2]:
+            if y in cfg.reach and y not in seen:
+                seen.add(y)
+                st.append((y, -1))
+    return False
+
+
+def adopt_params(prog, fn):
+    """`let settled = if .. { position } else { .. };` where the parameter `position` is never written and not read any more
+    once `settled` has a value of its own: the local is the parameter under another name (`mut position`, reassigned)."""
+    n = 0
+    for _round in range(6):
+        occ = list(occurrences(fn))
+        cfg = fn.cfg
+        done = False
+        for bi, b in enumerate(fn.blocks):
+            if b["cleanup"] or bi not in cfg.reach or done:
+                continue
+            for si, s in enumerate(b["stmts"]):
+                pc = _plain_copy(s)
+                if pc is None:
+                    continue
+                X, Y = pc
+                if X == Y or X == 0 or not fn.locals[Y]["arg"] or fn.locals[X]["arg"]:
+                    continue
+                if fn.locals[X]["ty"]["s"] != fn.locals[Y]["ty"]["s"]:
+                    continue
+                if fn.defs.get(Y) or fn.partial.get(Y) or fn.partial.get(X):
+                    continue
+                mutref = False
+                for b2 in fn.blocks:
+                    for s2 in b2["stmts"]:
+                        if s2["k"] == "assign" and s2["rv"]["k"] in ("ref", "addr") and s2["rv"].get("place", {}).get("local") in (X, Y) \
+                                and not s2["rv"]["place"]["proj"] and (s2["rv"].get("mut") or s2["rv"]["k"] == "addr"):
+                            mutref = True
+                if mutref:
+                    continue
+                xdefs = fn.defs.get(X, [])
+                own = [d for d in xdefs if not (d[0] == "stmt" and _plain_copy(d[3]) == (X, Y))]
+                if not own or any(_live_after(fn, cfg, occ, Y, d) for d in own):
+                    continue
+                for b2, pos2, h2, role2 in occ:
+                    if h2["local"] == X:
+                        h2["local"] = Y
+                for d in xdefs:
+                    if d[0] == "stmt" and d not in own:
+                        d[3]["k"] = "nop"
                 n += 1
                 done = True
                 break
@@ -447,8 +582,9 @@ def normalise(prog, fn):
         g, a = split_webs(prog, g)
         g, b = coalesce(prog, g)
         g, c = drop_self_copies(prog, g)
-        if a or b or c:
-            rep.append("webs split %d, copies coalesced %d, self copies dropped %d" % (a, b, c))
-        if not (b or c):
+        g, d = adopt_params(prog, g)
+        if a or b or c or d:
+            rep.append("webs split %d, copies coalesced %d, self copies dropped %d, parameters adopted %d" % (a, b, c, d))
+        if not (b or c or d):
             break
     return g, "; ".join(rep)
